@@ -41,6 +41,7 @@ func (s *Sched) newTimer(d time.Duration, fn func()) *Timer {
 	if fn == nil {
 		t.C = make(chan time.Time, 1)
 		t.c = s.register(chanPtr(t.C), 1, ".C")
+		t.c.tm = t
 	} else {
 		g.nmake++
 	}
@@ -177,4 +178,26 @@ func (s *Sched) PendingTimers() int {
 		}
 	}
 	return n
+}
+
+// ClockHere reads the virtual clock at the instant the running goroutine's
+// last operation completed, without a scheduling point; the value is folded
+// into the goroutine's history so that state matching stays exact.
+func ClockHere() int64 {
+	s := current
+	if s == nil || s.aborting || s.cur == nil {
+		return 0
+	}
+	s.bump(s.cur, 0x77, uint64(s.clock))
+	return s.clock
+}
+
+// Note folds harness observations of shared state into the running
+// goroutine's history (no scheduling point).
+func Note(vals ...uint64) {
+	s := current
+	if s == nil || s.aborting || s.cur == nil {
+		return
+	}
+	s.bump(s.cur, append([]uint64{0x78}, vals...)...)
 }
